@@ -416,7 +416,7 @@ func c07R2(p *core.Prog, r *core.Report) {
 }
 
 func c07R3(p *core.Prog, r *core.Report, rule string) {
-	r.Rule(rule, "order between files: manifest file renamed into place before the index mentions it; on delete the index is rewritten before the file is removed", 3)
+	r.Rule(rule, "order between files: manifest file renamed into place before the index mentions it; on delete the index is rewritten before the file is removed", 2)
 	// (a) functions that rename a file and call updateIndex: rename dominates, and updateIndex only on rename success
 	upd := p.Method(ocidirRel, "OCIDir", "updateIndex")
 	wri := p.Method(ocidirRel, "OCIDir", "writeIndex")
@@ -528,8 +528,28 @@ func c07R3(p *core.Prog, r *core.Report, rule string) {
 		r.MissingAnchor(rule, ocidirRel+".(*OCIDir).Close")
 		return
 	}
-	for _, rm := range core.CallsTo(closeFn, func(f *types.Func) bool { return isOS(f, "Remove") || isOS(f, "RemoveAll") }) {
+	for _, site := range sweepSites(closeFn) {
+		rm := site.rm
 		leaves := pathLeaves(core.CallArg(rm, 0))
+		// the removal lives in a helper: a leaf that is a parameter of the helper stands for the leaves
+		// of the argument Close passes
+		if cs, ok := site.at.(ssa.CallInstruction); ok && site.at != rm.(ssa.Instruction) {
+			if h := core.CalleeFn(cs); h != nil && h == rm.Parent() {
+				var exp []ssa.Value
+				for _, l := range leaves {
+					if par, ok := l.(*ssa.Parameter); ok {
+						for i, q := range h.Params {
+							if q == par {
+								exp = append(exp, pathLeaves(core.CallArg(cs, i))...)
+							}
+						}
+						continue
+					}
+					exp = append(exp, l)
+				}
+				leaves = exp
+			}
+		}
 		hasBlobs := false
 		okLeaves := true
 		var bad []string
